@@ -16,6 +16,7 @@ def sh(cmd):
 def main():
     ap = argparse.ArgumentParser()
     ap.add_argument('--only')
+    ap.add_argument('--props', help='run only these checks (comma separated) instead of the property + related ones; meta.json is not rewritten')
     a = ap.parse_args()
     WT = f'/tmp/verif_benign_wt_{os.getpid()}'   # private worktree of /repo HEAD (regression use; does not block /repo)
     sh(['git', '-C', '/repo', 'worktree', 'remove', '--force', WT])
@@ -39,9 +40,8 @@ def main():
         # the witness has been confirmed against the other property's statement; they must then fire
         expected = json.load(open(os.path.join(d, 'meta.json'))).get('expected_alarms', {})
         try:
-            t = sh([os.path.join(V, 'baseline_off.sh')])
-            res['tests'] = t.returncode
-            for q in [p] + REL.get(p, []):
+            res['tests'] = 'skipped' if a.props else sh([os.path.join(V, 'baseline_off.sh')]).returncode
+            for q in (a.props.split(',') if a.props else [p] + REL.get(p, [])):
                 c = sh(['python3', os.path.join(V, 'vcheck.py'), q, '--tier', 'quick'])
                 keys = re.findall(r'^  key=(.*?) count=', c.stdout, re.M)
                 res[q] = {'exit': c.returncode, 'keys': keys[:4]}
@@ -51,12 +51,14 @@ def main():
                     bad += 1
         finally:
             sh(['git', '-C', WT, 'checkout', '--', '.'])
+        print(sid, 'tests', res['tests'], {k: v['exit'] for k, v in res.items() if k != 'tests'}, flush=True)
+        if a.props:
+            continue
         m = json.load(open(os.path.join(d, 'meta.json')))
         m['checked_by_me'] = {'ran': 'tools_benign.py: git -C /repo apply; baseline_off.sh; quick checks of the property and related ones; git checkout', 'result': res,
                               'all_checks_silent': all(v['exit'] == 0 for k, v in res.items() if k != 'tests' and k not in expected),
                               'expected_alarms_fired': all(res.get(k, {}).get('exit') == 1 for k in expected)}
         json.dump(m, open(os.path.join(d, 'meta.json'), 'w'), indent=1)
-        print(sid, 'tests', res['tests'], {k: v['exit'] for k, v in res.items() if k != 'tests'}, flush=True)
     sh(['git', '-C', '/repo', 'worktree', 'remove', '--force', WT])
     for k in ('VERIF_EVIDENCE_DIR', 'VERIF_REPLAY_DIR'):
         shutil.rmtree(os.environ[k], ignore_errors=True)
